@@ -870,6 +870,8 @@ func classify(desc string) string {
 		return "C12"
 	case strings.Contains(desc, "retain=true"):
 		return "C08"
+	case strings.HasPrefix(desc, "PUBLISH topic=\"will/"):
+		return "C09" // (the histories publish wills, and nothing else, on will/...)
 	}
 	return "C01"
 }
